@@ -40,7 +40,7 @@ Inductive builtin :=
 
 Inductive meth :=
 | MLower | MUpper | MFind | MRfind | MIndex | MJoin | MToBytesBig | MToBytesLittle
-| MStartswith | MEndswith | MHex | MZfill | MSplit | MStrip | MIsdigit | MEncodeAscii | MFormat.
+| MStartswith | MEndswith | MHex | MZfill | MSplit | MStrip | MIsdigit | MEncodeAscii | MFormat | MEncodeUtf8.
 
 Inductive expr : Type :=
 | EConst (v : val)
